@@ -1,0 +1,27 @@
+//go:build verif
+
+// Contracts for deductive verification (govc). Comment-only: with the build
+// tag off this file does not exist for the compiler; with it on it contributes
+// a package clause and nothing else.
+
+package valid
+
+//@ func validInputSize
+//@   let incl = len(isHasEqual) == 0 || isHasEqual[0]
+//@   let k = rv.kind(tv)
+//@   let fOK = abs(min) <= 2^53 && abs(max) <= 2^53
+//@   let n = runeCount(rv.str(tv))
+//@   ensures [C01 less.str]    k == 24 ==> (isLessThan == ite(incl, n < min, n <= min))
+//@   ensures [C01 more.str]    k == 24 ==> (isMoreThan == ite(incl, n > max, n >= max))
+//@   ensures [C01 less.int]    isIntKind(k) ==> (isLessThan == ite(incl, rv.int(tv) < min, rv.int(tv) <= min))
+//@   ensures [C01 more.int]    isIntKind(k) ==> (isMoreThan == ite(incl, rv.int(tv) > max, rv.int(tv) >= max))
+//@   ensures [C01 less.uint]   isUintKind(k) ==> (isLessThan == ite(incl, rv.uint(tv) < min, rv.uint(tv) <= min))
+//@   ensures [C01 more.uint]   isUintKind(k) ==> (isMoreThan == ite(incl, rv.uint(tv) > max, rv.uint(tv) >= max))
+//@   ensures [C01 less.float]  isFloatKind(k) && fOK ==> (isLessThan == ite(incl, rv.float(tv) < min, rv.float(tv) <= min))
+//@   ensures [C01 more.float]  isFloatKind(k) && fOK ==> (isMoreThan == ite(incl, rv.float(tv) > max, rv.float(tv) >= max))
+//@   ensures [C01 less.slice]  k == 23 ==> (isLessThan == ite(incl, rv.len(tv) < min, rv.len(tv) <= min))
+//@   ensures [C01 more.slice]  k == 23 ==> (isMoreThan == ite(incl, rv.len(tv) > max, rv.len(tv) >= max))
+//@   modifies nothing
+
+//@ func ToStr
+//@   pure
